@@ -12,7 +12,8 @@
   Python                                                         Lean
   ------------------------------------------------------------   ---------------------------------
   vendor/dask/array/core.py blockdims_from_blockshape            regGrid
-  vendor/dask/array/core.py _check_regular_chunks                regularAxis
+  vendor/dask/array/core.py _check_regular_chunks                regularAxis (allButLastEq, lastOr)
+  Python `set(...)` of block dimensions                          dedup
   utils.py to_chunksize                                          toChunksize1 / toChunksize
   utils.py normalize_chunks (int chunk sizes against a shape)    regGrid (per axis)
   core/array.py CoreArray.__init__ (chunks from the zarr array)  arrChunks
@@ -28,15 +29,18 @@
   core/ops.py _map_blocks (drop_axis/new_axis/chunks)            MapBlocks, mapBlocksToBw
   core/ops.py squeeze / manipulation_functions expand_dims,
      permute_dims                                                squeezeMB, expandDimsMB, permuteBw
-  core/ops.py partial_reduce / _partial_reduce                   PartialReduce, prChunkss, prBlock
+  core/ops.py partial_reduce / _partial_reduce                   PartialReduce, PRKind, prAxisChunks, prChunkss,
+                                                                 prAxisLen, prAxisBlock, prBlock
   core/ops.py tree_reduce (levels)                               treeLevels
   manipulation_functions.py concat / _read_concat_chunk          Concat, concatChunkss, concatBlock, arraySlices
   manipulation_functions.py stack / _read_stack_chunk            stackChunkss, stackBlock
   manipulation_functions.py unstack / _unstack_chunk             unstackChunkss, unstackBlock
-  manipulation_functions.py repeat / _repeat                     repeatChunkss, repeatBlock
+  manipulation_functions.py repeat / _repeat                     repeatChunkss, repeatAxisBlock, repeatBlock
+  manipulation_functions.py _array_slices                        arraySlices
   core/ops.py _rechunk, merge_chunks, map_selection /
-     _assemble_index_chunk (zarr indexer shape of a slice)       copyChunkss, copyBlock, selLen
-  core/indexing.py index / _target_chunk_selection               Sel, indexChunkss, indexBlock
+     _assemble_index_chunk (zarr indexer shape of a slice)       copyChunkss, copyAxisBlock, copyBlock, selLen, mergeOk
+  core/indexing.py index / _target_chunk_selection               Sel, indexChunkLen, indexChunkss, indexAxisBlock, indexBlock
+  key function of squeeze (block 0 on the dropped axes)          unsqueezeCoords
   array_api/linalg.py _qr_first_step / _qr_second_step /
      _qr_third_step, numpy.linalg.qr (reduced)                   qrShapes, qr1Chunkss, qr1Block, qr2…, qr3…
   core/ops.py reduction (shape of the result)                    reducedShape
